@@ -194,6 +194,9 @@ func (g *gen) mixedInterpreted() string {
 			continue
 		}
 		d := forms[g.Pick(len(forms), "mi-form")]
+		if k := g.types[d.ti].kind; !d.ptr && (k == "int" || k == "string") && excl("F-C09-17") {
+			continue // element of a named basic type in a composite literal of interface type
+		}
 		hit := false
 		for _, idx := range ics {
 			if g.implementsIface(d, idx) {
